@@ -1,21 +1,267 @@
-// Command c06 decides property C06 (pubsub.Deque is a linearizable bounded
-// double-ended queue). Sequential conformance against the reference model
-// lives in seqpart; the concurrent (schedule-exploring, porcupine-checked)
-// part is added here.
+// C06 (concurrent half): every history of small concurrent programs over the
+// real pubsub.Deque, under every schedule up to the deviation bound, is
+// linearizable with respect to the reference model validated by the sequential
+// half (checks/c06/seqpart). Linearizability of each recorded call/return
+// history is decided by porcupine.
 package main
 
 import (
-	"flag"
-	"os"
+	"context"
+	"errors"
+	"fmt"
+	"strings"
+	"time"
 
-	"verif/checks/c06/seqpart"
-	"verif/rep"
+	"github.com/anishathalye/porcupine"
+	"github.com/tychoish/fun/pubsub"
+	"verif/checks/c06/model"
+	"verif/vs"
+	"verif/vs/runner"
 )
 
+type opRec struct {
+	client    int
+	in        model.Input
+	out       model.Output
+	call, ret int64
+	done      bool
+}
+
+func classify(err error) model.ErrKind {
+	switch {
+	case err == nil:
+		return model.OK
+	case errors.Is(err, pubsub.ErrQueueFull):
+		return model.ErrFull
+	case errors.Is(err, pubsub.ErrQueueNoCredit):
+		return model.ErrNoCredit
+	case errors.Is(err, pubsub.ErrQueueClosed):
+		return model.ErrClosed
+	case errors.Is(err, context.Canceled), errors.Is(err, context.DeadlineExceeded):
+		return model.ErrCtx
+	}
+	return model.ErrOther
+}
+
+func newDeque(o model.Options) *pubsub.Deque[int] {
+	if o.Unlimited {
+		return pubsub.NewUnlimitedDeque[int]()
+	}
+	q, err := pubsub.NewDeque[int](pubsub.DequeOptions{Capacity: o.Capacity})
+	if err != nil {
+		panic(err)
+	}
+	return q
+}
+
+func call(q *pubsub.Deque[int], ctx context.Context, in model.Input) model.Output {
+	switch in.Kind {
+	case model.PushFront:
+		return model.OutErr(classify(q.PushFront(in.Val)))
+	case model.PushBack:
+		return model.OutErr(classify(q.PushBack(in.Val)))
+	case model.ForcePushFront:
+		return model.OutErr(classify(q.ForcePushFront(in.Val)))
+	case model.ForcePushBack:
+		return model.OutErr(classify(q.ForcePushBack(in.Val)))
+	case model.WaitPushFront:
+		return model.OutErr(classify(q.WaitPushFront(ctx, in.Val)))
+	case model.WaitPushBack:
+		return model.OutErr(classify(q.WaitPushBack(ctx, in.Val)))
+	case model.PopFront:
+		v, ok := q.PopFront()
+		return model.OutPop(v, ok)
+	case model.PopBack:
+		v, ok := q.PopBack()
+		return model.OutPop(v, ok)
+	case model.WaitFront:
+		v, err := q.WaitFront(ctx)
+		return model.OutWait(v, classify(err))
+	case model.WaitBack:
+		v, err := q.WaitBack(ctx)
+		return model.OutWait(v, classify(err))
+	case model.Len:
+		return model.OutLen(q.Len())
+	case model.Close:
+		_ = q.Close()
+		return model.Output{}
+	}
+	panic("unknown op")
+}
+
+func porcupineModel(init model.State) porcupine.Model {
+	return porcupine.Model{
+		Init: func() interface{} { return init.Clone() },
+		Step: func(state, input, output interface{}) (bool, interface{}) {
+			ok, next := model.Step(state.(model.State), input.(model.Input), output.(model.Output))
+			return ok, next
+		},
+		Equal: func(a, b interface{}) bool { return a.(model.State).Equal(b.(model.State)) },
+		DescribeOperation: func(input, output interface{}) string {
+			in := input.(model.Input)
+			return fmt.Sprintf("%v -> %s", in, output.(model.Output).Format(in.Kind))
+		},
+	}
+}
+
+// program: pre-state built sequentially from `pre` operations, then one thread
+// per element of `threads`, each running its operations in order. Blocking
+// calls that are still pending at quiescence are released by cancelling their
+// contexts (a context error is a no-op in the specification).
+func program(opt model.Options, pre []model.Input, threads [][]model.Input) vs.Scenario {
+	return func() (func(), func(*vs.End) (string, string)) {
+		var recs []*opRec
+		var clock int64
+		init := model.MustNew(opt)
+		body := func() {
+			q := newDeque(opt)
+			for _, in := range pre {
+				out := call(q, context.Background(), in)
+				var ok bool
+				ok, init = model.Step(init, in, out)
+				if !ok {
+					panic(fmt.Sprintf("pre-state operation %v -> %s does not follow the sequential model", in, out.Format(in.Kind)))
+				}
+			}
+			ctx, cancel := context.WithCancel(context.Background())
+			fin := make(chan struct{}, len(threads))
+			for ci, ops := range threads {
+				ci, ops := ci, ops
+				go func() {
+					for _, in := range ops {
+						r := &opRec{client: ci, in: in}
+						recs = append(recs, r)
+						clock++
+						r.call = clock
+						out := call(q, ctx, in)
+						clock++
+						r.ret = clock
+						r.out, r.done = out, true
+						vs.Progress()
+					}
+					fin <- struct{}{}
+				}()
+			}
+			vs.Quiesce()
+			cancel()
+			for range threads {
+				<-fin
+			}
+		}
+		check := func(e *vs.End) (string, string) {
+			if len(e.Panics) > 0 {
+				return "panic/" + e.Panics[0].Site, e.Panics[0].Value
+			}
+			if e.Status != vs.Clean {
+				return "not-released-by-cancel/" + e.Status.String() + "/" + e.LibSites(), fmt.Sprintf("%+v", e.Stuck)
+			}
+			var hist []porcupine.Operation
+			for _, r := range recs {
+				if !r.done {
+					continue
+				}
+				hist = append(hist, porcupine.Operation{ClientId: r.client, Input: r.in, Output: r.out, Call: r.call, Return: r.ret})
+			}
+			if porcupine.CheckOperations(porcupineModel(init), hist) {
+				return "", ""
+			}
+			var kinds []string
+			var b strings.Builder
+			seen := map[string]bool{}
+			for _, r := range recs {
+				fmt.Fprintf(&b, "[client %d: %v -> %s @%d..%d] ", r.client, r.in, r.out.Format(r.in.Kind), r.call, r.ret)
+				if k := r.in.Kind.String(); !seen[k] {
+					seen[k] = true
+					kinds = append(kinds, k)
+				}
+			}
+			return "not-linearizable", fmt.Sprintf("options %v, initial state %s: %s", opt, init.Key(), b.String())
+		}
+		return body, check
+	}
+}
+
+func name(ops []model.Input) string {
+	var s []string
+	for _, o := range ops {
+		s = append(s, o.String())
+	}
+	return strings.Join(s, ";")
+}
+
+func build(tier string) ([]runner.Instance, time.Duration) {
+	bound, budget := 2, 80*time.Second
+	if tier == "thorough" {
+		bound, budget = 3, 14*time.Minute
+	}
+	alpha := []model.Input{
+		{Kind: model.PushFront, Val: 1}, {Kind: model.PushBack, Val: 2}, {Kind: model.PopFront}, {Kind: model.PopBack},
+		{Kind: model.ForcePushFront, Val: 3}, {Kind: model.ForcePushBack, Val: 4}, {Kind: model.WaitFront}, {Kind: model.WaitBack},
+		{Kind: model.WaitPushFront, Val: 5}, {Kind: model.WaitPushBack, Val: 6}, {Kind: model.Len}, {Kind: model.Close},
+	}
+	var seqs1, seqs2 [][]model.Input
+	for _, a := range alpha {
+		seqs1 = append(seqs1, []model.Input{a})
+		for _, b := range alpha {
+			seqs2 = append(seqs2, []model.Input{a, b})
+		}
+	}
+	type cfg struct {
+		opt model.Options
+		pre []model.Input
+		tag string
+	}
+	cfgs := []cfg{
+		{model.Options{Unlimited: true}, nil, "unlimited/empty"},
+		{model.Options{Capacity: 1}, []model.Input{{Kind: model.PushBack, Val: 9}}, "cap1/full"},
+		{model.Options{Capacity: 2}, []model.Input{{Kind: model.PushBack, Val: 8}, {Kind: model.PushBack, Val: 9}}, "cap2/full"},
+	}
+	if tier == "thorough" {
+		cfgs = append(cfgs,
+			cfg{model.Options{Capacity: 1}, nil, "cap1/empty"},
+			cfg{model.Options{Capacity: 2}, []model.Input{{Kind: model.PushBack, Val: 9}}, "cap2/one"},
+			cfg{model.Options{Unlimited: true}, []model.Input{{Kind: model.PushBack, Val: 8}, {Kind: model.PushBack, Val: 9}}, "unlimited/two"},
+		)
+	}
+	var out []runner.Instance
+	add := func(c cfg, threads [][]model.Input) {
+		var parts []string
+		for _, t := range threads {
+			parts = append(parts, name(t))
+		}
+		out = append(out, runner.Instance{Group: "lin/" + c.tag, Name: "lin/" + c.tag + "/" + strings.Join(parts, " || "), Bound: bound, Scenario: program(c.opt, c.pre, threads)})
+	}
+	for _, c := range cfgs {
+		// two threads: (2 ops || 1 op), and (1 op || 1 op || 1 op) over a reduced alphabet
+		for _, a := range seqs2 {
+			for _, b := range seqs1 {
+				add(c, [][]model.Input{a, b})
+			}
+		}
+		if tier == "thorough" {
+			for i, a := range seqs2 {
+				for j, b := range seqs2 {
+					if j < i {
+						continue
+					}
+					add(c, [][]model.Input{a, b})
+				}
+			}
+		}
+		core := []model.Input{{Kind: model.PushFront, Val: 1}, {Kind: model.PopBack}, {Kind: model.WaitFront}, {Kind: model.WaitPushBack, Val: 6}, {Kind: model.ForcePushBack, Val: 4}, {Kind: model.Close}}
+		for i, a := range core {
+			for j := i; j < len(core); j++ {
+				for k := j; k < len(core); k++ {
+					add(c, [][]model.Input{{a}, {core[j]}, {core[k]}})
+				}
+			}
+		}
+	}
+	return out, budget
+}
+
 func main() {
-	tier := flag.String("tier", "quick", "quick|thorough")
-	flag.Parse()
-	r := rep.New("C06", *tier, "model_checking")
-	seqpart.Run(r, *tier)
-	os.Exit(r.Finish())
+	runner.Main(runner.Options{Property: "C06", Level: "model_checking", Build: build,
+		Rule: "concurrent half: every schedule (deviation bounded, bounds iterated) of each closed program {pre-state} x {2-3 threads x 1-2 operations}; the call/return history of every execution is checked for linearizability against the reference model with porcupine; evaluations = executions = histories checked",
+		Assume: []string{"model of sync/context/channels in verif/vs (DESIGN §2.2)", "logical timestamps: a global counter of call/return events of the serialized execution", "pending blocking calls are released by cancelling their context at quiescence; a context error is a no-op in the specification"}})
 }
